@@ -462,8 +462,10 @@ class NDCubeBase(NDCubeABC, astropy.nddata.NDData, NDCubeSlicingMixin):
             ranges = [np.arange(i) for i in pixel_shape]
 
         # Limit the pixel dimensions to the ones present in the ExtraCoords
+        mapping = None
         if isinstance(wcs, ExtraCoords):
-            ranges = [ranges[i] for i in wcs.mapping]
+            mapping = np.array(wcs.mapping, dtype=int)
+            ranges = [ranges[i] for i in mapping]
             wcs = wcs.wcs
             if wcs is None:
                 return []
@@ -490,6 +492,11 @@ class NDCubeBase(NDCubeABC, astropy.nddata.NDData, NDCubeSlicingMixin):
                 array_slice = np.zeros((wcs.pixel_n_dim,), dtype=object)
                 array_slice[wcs.axis_correlation_matrix[idx]] = slice(None)
                 tmp_world = world[idx][tuple(array_slice)].T
+                if mapping is not None:
+                    # The pixel dimensions of extra coords need not be in the order of the
+                    # cube's: order the array axes as they are in the cube.
+                    cube_pixel_axes = mapping[wcs.axis_correlation_matrix[idx]][::-1]
+                    tmp_world = np.transpose(tmp_world, np.argsort(-cube_pixel_axes))
                 world_coords[idx] = tmp_world
 
         for i, (coord, unit) in enumerate(zip(world_coords, wcs.world_axis_units)):
